@@ -896,9 +896,13 @@ func (g *vC11Gen) template(typ string) *vJ {
 	return jObj("type", jStr(typ))
 }
 
-func (g *vC11Gen) wrong() *vJ {
-	pool := []*vJ{jNum("5"), jStr("str"), jBool(true), jBool(false), jArr(), jObj(), jArr(jNum("1")), jObj("x", jObj()),
+func (g *vC11Gen) wrongPool() []*vJ {
+	return []*vJ{jNum("5"), jStr("str"), jBool(true), jBool(false), jArr(), jObj(), jArr(jNum("1")), jObj("x", jObj()),
 		jNum("1.5"), jNum("-1"), jNull(), jArr(jNull()), jStr(""), jArr(jArr(jArr())), jNum("12345678901234567890")}
+}
+
+func (g *vC11Gen) wrong() *vJ {
+	pool := g.wrongPool()
 	return pool[g.r.intn(len(pool))].clone()
 }
 
@@ -971,7 +975,8 @@ func (g *vC11Gen) mutate(doc *vJ) string {
 		if o.xs[i].k == 'a' && g.huge {
 			n := g.e.scale(3000, 12000)
 			el := jStr("u9")
-			if len(o.xs[i].xs) > 0 {
+			// (not a placeholder: its substitution would change the body length)
+			if len(o.xs[i].xs) > 0 && !strings.Contains(o.xs[i].xs[0].String(), "@") {
 				el = o.xs[i].xs[0]
 			}
 			big := jArr()
@@ -981,7 +986,11 @@ func (g *vC11Gen) mutate(doc *vJ) string {
 			o.xs[i] = big
 			return "huge-list"
 		}
-		o.ks[i] = strings.ToUpper(o.ks[i][:1]) + o.ks[i][1:]
+		if o.ks[i] == "" {
+			o.ks[i] = "x"
+		} else {
+			o.ks[i] = strings.ToUpper(o.ks[i][:1]) + o.ks[i][1:]
+		}
 		return "rename"
 	}
 }
@@ -1053,8 +1062,10 @@ func (g *vC11Gen) rawBytes() string {
 }
 
 func vC11GenCases(e *vEnv, r *vRand) []vCase {
+	// newVRand(seed+1) is newVRand(seed) shifted by one draw: decorrelate the seeds first
+	r = newVRand(r.u64() ^ (e.seed+1)*0xD1B54A32D192ED03)
 	var cases []vCase
-	n := e.scale(450, 6000)
+	n := e.scale(450, 15000)
 	dials := []string{"none", "none", "none", "none", "accept", "error", "ringing", "badtype", "silent", "accept"}
 	for i := 0; i < n; i++ {
 		rr := r.fork()
@@ -1092,6 +1103,61 @@ func vC11GenCases(e *vEnv, r *vRand) []vCase {
 			tags = append(tags, tag)
 		}
 		cases = append(cases, vCase{Ops: ops, Tags: tags})
+	}
+	// systematic block: every type x every member of the request and of its sub-object x
+	// {dropped, null, each wrong-typed value, emptied}; four requests per case
+	{
+		g := &vC11Gen{r: r.fork(), e: e, n: 1}
+		var docs []string
+		for _, typ := range append(append([]string(nil), vC11Types...), "transient") {
+			base := g.template(typ)
+			var objs []*vJ
+			base.objects(&objs)
+			for oi := range objs {
+				if oi > 1 && !e.thorough() {
+					break // quick tier: the request object and its sub-object only
+				}
+				for mi := range objs[oi].ks {
+					variants := []*vJ{nil, jNull(), jArr(), jObj()}
+					variants = append(variants, g.wrongPool()...)
+					for _, v := range variants {
+						d := base.clone()
+						var os []*vJ
+						d.objects(&os)
+						o := os[oi]
+						if v == nil {
+							o.ks = append(o.ks[:mi], o.ks[mi+1:]...)
+							o.xs = append(o.xs[:mi], o.xs[mi+1:]...)
+						} else {
+							o.xs[mi] = v.clone()
+						}
+						docs = append(docs, d.String())
+					}
+				}
+			}
+		}
+		setups := []string{"setup 1 100 none"}
+		if e.thorough() {
+			setups = append(setups, "setup 0 100 none", "setup 1 100 accept")
+		}
+		for _, su := range setups {
+			for i := 0; i < len(docs); i += 4 {
+				ops := []string{su}
+				for j := i; j < i+4 && j < len(docs); j++ {
+					ops = append(ops, "req 100 "+vEnc(docs[j]))
+				}
+				cases = append(cases, vCase{Ops: ops, Tags: []string{"systematic"}})
+			}
+		}
+	}
+	// deep nesting in a raw member and in an unknown member
+	{
+		deep := strings.Repeat("[", 300) + strings.Repeat("]", 300)
+		cases = append(cases, vCase{Ops: []string{"setup 1 100 none",
+			"req 100 " + vEnc(`{"type":"message","message":{"data":`+deep+`}}`),
+			"req 100 " + vEnc(`{"type":"invite","invite":{"userids":["u1"]},"zzz":`+deep+`}`),
+			"req 100 " + vEnc(`{"type":"participants","participants":{"users":[{"sessionId":"rs1","x":`+deep+`}]}}`)},
+			Tags: []string{"deep"}})
 	}
 	// one over-long body per run
 	{
